@@ -60,10 +60,20 @@ def steep_long_case(rng, i):
 
 def unreachable_case(rng, i):
     c = gen_case(rng, i, False)
-    c["shot"]["look_deg"] = rng.choice([0.0, 3.0])
-    c["d_yd"] = rng.choice([9000.0, 15000.0])
     c["shot"]["mv_fps"] = 2500.0
     c["prev_zero_rad"] = rng.choice([0.001, 0.004])
+    if (i // 9) % 2:
+        # out of reach because the aim point lies BELOW the calculator's altitude floor on a steep downhill line: every trial
+        # trajectory is cut off by the limit before the aim point
+        c["shot"]["look_deg"] = rng.choice([-30.0, -35.0, -45.0])
+        c["shot"]["alt_ft"] = 0.0
+        c["shot"]["table"], c["shot"]["bc"] = "G7", 0.25
+        c["d_yd"] = round(rng.uniform(1050.0, 1400.0), 1)
+        c["cfg"] = {"max_calc_step_size_feet": 2.0}
+        c["floor"] = True
+    else:
+        c["shot"]["look_deg"] = rng.choice([0.0, 3.0])
+        c["d_yd"] = rng.choice([9000.0, 15000.0])
     return c
 
 
@@ -146,7 +156,7 @@ def run_case(case, tid):
             "elevation_tail_rad": [it["elevation"] for it in z["iters"][-6:]] if z else None}
     end = {"tid": tid, "ev": "ZEnd", "outcome": outcome if not outcome.startswith("other") else "other",
            "storedSame": bool(float(stored_after.raw_value).hex() == sb[0]),
-           "storedIsResult": True, "observed": False, "missOK": True}
+           "storedIsResult": True, "observed": False, "missOK": True, "reaches": True}
     if o[0] == "ok":
         end["storedIsResult"] = bool(float(stored_after.raw_value).hex() == float(o[1].raw_value).hex())
         # ---- fire with the returned zero and no hold-over; read the distance from the sight line at the aim point
@@ -156,6 +166,10 @@ def run_case(case, tid):
             rows = hr.trajectory
         except m.RangeError as e:
             rows = e.incomplete_trajectory
+            # fired with the returned zero, the projectile is stopped by a limit before the aim point's distance
+            if not rows or (rows[-1].distance >> U.Foot) < X * (1 - 1e-9):
+                end["reaches"] = False
+                info["fired_back_stopped_at_ft"] = (rows[-1].distance >> U.Foot) if rows else None
         finally:
             rec2.remove()
         row = next((r for r in rows if abs((r.distance >> U.Foot) - X) <= 1e-6 * max(1.0, X) and int(r.flag) & 8 and (r.distance >> U.Foot) > 0), None)
@@ -263,6 +277,8 @@ def run(chk: core.Check, replay=None) -> None:
         chk.count(1, ("zero", i) if info["outcome"] == "Returned" else None)
         chk.stratum("outcome_" + info["outcome"].split(":")[0])
         chk.stratum("reachable" if info["reachable"] else "unreachable")
+        if case.get("floor") and not info["reachable"]:
+            chk.stratum("unreachable_below_the_altitude_floor")
         chk.stratum("look_level" if look < 1 else ("look_mild" if look <= 10 else ("look_steep" if look < 40 else "look_very_steep")))
         if info["end"]["observed"]:
             chk.stratum("miss_observed")
@@ -284,7 +300,7 @@ def run(chk: core.Check, replay=None) -> None:
                                "converging_linearly": info.get("converging_linearly")}, info)
     chk.sample({k: v for k, v in infos[1].items()})
     chk.sample({"trace_lines": lines[:4]})
-    chk.require_strata(["outcome_Returned", "outcome_RangeErr", "reachable", "unreachable", "look_level", "look_mild", "look_steep",
+    chk.require_strata(["unreachable_below_the_altitude_floor", "reachable", "unreachable", "look_level", "look_mild", "look_steep",
                         "miss_observed", "previous_zero_nonzero", "small_iteration_cap_ZeroErr", "wind_changes_inside_zero_distance", "steep_and_long"])
     chk.exhaustive = False
     chk.rule.append("seeded un-canted shots (G1/G7/.. tables, 600-4000 fps, sight heights -2..6 in, look angles 0, +-5..+-59 deg, 0-2 "
